@@ -666,10 +666,101 @@ func (s *scope) lenFacts(pr *proof, a Lin, x ssa.Value) {
 					}
 					s.b.Assumed[fmt.Sprintf("len(%s.%s) in [%s] (verified at every store site; initialised-before-use assumed)", k.Type, k.Field, iv)] = true
 				}
+				// the same field of the same object loaded again with nothing in between that
+				// stores to it: the same slice
+				if prev := s.b.p.previousLoad(y, k); prev != nil {
+					if l, ok := s.lenLin(prev, pr); ok {
+						pr.add(eq(a, l)...)
+					}
+				}
 			}
 		}
 	}
 	_ = p
+}
+
+// previousLoad finds the closest earlier load of the same field of the same
+// object, walking backwards through the block and its chain of unique
+// predecessors, with no store to that field (directly or in a module callee)
+// in between.
+func (p *Prog) previousLoad(ld *ssa.UnOp, k FieldKey) *ssa.UnOp {
+	key := objKey(ld)
+	blk := ld.Block()
+	pos := -1
+	for i, in := range blk.Instrs {
+		if in == ssa.Instruction(ld) {
+			pos = i
+		}
+	}
+	writers := map[*ssa.Function]bool{}
+	for _, st := range p.stores[k] {
+		writers[st.Fn] = true
+	}
+	for hops := 0; hops < 8 && blk != nil; hops++ {
+		for i := pos - 1; i >= 0; i-- {
+			switch x := blk.Instrs[i].(type) {
+			case *ssa.UnOp:
+				if x.Op == token.MUL && x != ld {
+					if k2, ok := fieldAddrKey(x.X); ok && k2 == k && objKey(x) == key {
+						return x
+					}
+				}
+			case *ssa.Store:
+				if k2, ok := fieldAddrKey(x.Addr); ok && k2 == k {
+					return nil
+				}
+				// a store through a pointer to a struct that embeds the field (whole-struct assignment)
+				if _, isFA := x.Addr.(*ssa.FieldAddr); !isFA {
+					if _, isIA := x.Addr.(*ssa.IndexAddr); !isIA {
+						if _, isAl := x.Addr.(*ssa.Alloc); !isAl {
+							return nil
+						}
+					}
+				}
+			case ssa.CallInstruction:
+				if _, isB := x.Common().Value.(*ssa.Builtin); isB {
+					continue
+				}
+				callee := x.Common().StaticCallee()
+				if callee == nil {
+					if x.Common().IsInvoke() || len(writers) > 0 {
+						// dynamic call: could reach a writer of the field
+						for w := range writers {
+							_ = w
+							return nil
+						}
+					}
+					continue
+				}
+				if !p.inModule(callee) {
+					// library code cannot name the field, but it can call back into the module
+					// through an interface, function or module-typed pointer it was given
+					for _, arg := range x.Common().Args {
+						switch t := arg.Type().Underlying().(type) {
+						case *types.Interface, *types.Signature:
+							return nil
+						case *types.Pointer:
+							if nt, ok := t.Elem().(*types.Named); ok && nt.Obj().Pkg() != nil && strings.HasPrefix(nt.Obj().Pkg().Path(), modulePath) {
+								return nil
+							}
+						}
+					}
+					continue
+				}
+				for fn := range p.Reachable(callee) {
+					if writers[fn] {
+						return nil
+					}
+				}
+			}
+		}
+		if len(blk.Preds) != 1 {
+			return nil
+		}
+		blk = blk.Preds[0]
+		pos = len(blk.Instrs)
+	}
+	return nil
 }
 
 func isByteSlice(t types.Type) bool {
